@@ -35,6 +35,8 @@ def flags(kind, repo=None, ndebug=True):
     if kind == "gsl":         # src/gsl/amplgsl.cc with the stub funcadd.h
         return COMMON + nd + ["-I%s/tool/stubs" % VERIF, "-I%s/include" % r,
                               "-I%s/src" % r, "-I%s/src/gsl" % r]
+    if kind == "bare":        # only what the caller adds (stubs that pick their own include order)
+        return COMMON + nd
     raise KeyError(kind)
 
 
@@ -46,7 +48,8 @@ UNITS = {
     "src/std_constr.cc": "mp", "src/utils_clock.cc": "mp",
     "src/utils_file.cc": "mp", "src/utils_string.cc": "mp",
     "src/mp/flat/encodings.cpp": "mp", "src/mp/flat/piecewise_linear.cpp": "mp",
-    "src/format.cc": "fmt", "src/posix.cc": "fmt", "src/gen-expr-info.cc": "fmt",
+    "src/format.cc": "fmt", "src/posix.cc": "fmt", "src/gen-expr-info.cc": "mp",
+    "src/expr-info.cc": "mp",
     "nl-writer2/src/nl-writer2.cc": "nlw2", "nl-writer2/src/nl-utils.cc": "nlw2",
     "nl-writer2/src/dtoa.cc": "nlw2", "nl-writer2/src/nl-solver.cc": "nlw2",
     "nl-writer2/src/nl-model-c.cc": "nlw2", "nl-writer2/src/nl-solver-c.cc": "nlw2",
